@@ -119,6 +119,49 @@ def same(a: Any, b: Any) -> bool:
     return a == b
 
 
+def _receiver_from_cli(broker: Any, case: Dict[str, Any]) -> Any:
+    """The Receiver exactly as `taskiq worker` builds it: WorkerArgs.from_cli(argv) -> start_listen(args).
+
+    The receiver class named on the command line is a capturing subclass whose listen() returns at once; the captured
+    instance (constructed by start_listen with the wiring under test) then processes the message.
+    """
+    import asyncio
+    import signal as real_signal
+    import sys
+    import types
+
+    from taskiq.cli.worker import run as cli_run
+    from taskiq.cli.worker.args import WorkerArgs
+
+    captured: List[Any] = []
+
+    class CaptureReceiver(Receiver):
+        async def listen(self, finish_event: Any) -> None:  # type: ignore[override]
+            captured.append(self)
+
+    mod = types.ModuleType("verifparmod")
+    mod.broker = broker  # type: ignore[attr-defined]
+    mod.CaptureReceiver = CaptureReceiver  # type: ignore[attr-defined]
+    sys.modules["verifparmod"] = mod
+    argv = ["verifparmod:broker", "--receiver", "verifparmod:CaptureReceiver", "--no-configure-logging", "--max-async-tasks", "3"]
+    if not case.get("parse", True):
+        argv.append("--no-parse")
+    if case.get("noprop"):
+        argv.append("--no-propagate-errors")         # must not influence argument conversion
+    saved_signal = cli_run.signal
+    cli_run.signal = types.SimpleNamespace(signal=lambda n, h: None, SIGINT=real_signal.SIGINT, SIGTERM=real_signal.SIGTERM,  # type: ignore[assignment]
+                                           SIGHUP=real_signal.SIGHUP)
+    try:
+        cli_run.start_listen(WorkerArgs.from_cli(argv))
+    finally:
+        cli_run.signal = saved_signal  # type: ignore[assignment]
+        sys.modules.pop("verifparmod", None)
+        asyncio.set_event_loop(None)
+    rec = captured[0]
+    rec.executor = InlineExecutor()
+    return rec
+
+
 def run(case: Dict[str, Any]) -> Dict[str, Any]:
     sig = case["sig"]
     rng = random.Random(repr(case.get("seed", 0)))
@@ -154,6 +197,21 @@ def run(case: Dict[str, Any]) -> Dict[str, Any]:
         if case.get("late"):
             # the worker exists before the task is registered (dynamically defined task / in-memory broker order)
             receiver_early = Receiver(broker, executor=InlineExecutor(), validate_params=case.get("parse", True), run_startup=False)
+        if case.get("shadow"):
+            # a shared task of the same name with another signature exists in the global registry: the broker's own task wins,
+            # for the lookup AND for the signature its arguments are parsed against
+            from taskiq.brokers.shared_broker import AsyncSharedBroker
+            sh_params = []
+            seen_kw2 = False
+            for i, p in enumerate(sig, start=1):
+                if p["reg"] == "kw" and not seen_kw2:
+                    sh_params.append("*")
+                    seen_kw2 = True
+                sh_params.append(f"p{i}: int = 0")
+            sh_glb: Dict[str, Any] = {"GOT": got, "__name__": __name__}
+            exec(f"async def fn({', '.join(sh_params)}):\n    GOT['__shadow_ran__'] = True\n    return 2\n", sh_glb)  # noqa: S102
+            AsyncSharedBroker().register_task(sh_glb["fn"], task_name="fn")
+            shadowed = True
         task = broker.register_task(glb["fn"], task_name="fn")
         args: List[Any] = []
         kwargs: Dict[str, Any] = {}
@@ -171,7 +229,10 @@ def run(case: Dict[str, Any]) -> Dict[str, Any]:
         # round trip of the message itself
         tm = broker.formatter.loads(bm.message)
         rt_ok = broker.formatter.loads(broker.formatter.dumps(tm).message) == tm
-        receiver = receiver_early or Receiver(broker, executor=InlineExecutor(), validate_params=case.get("parse", True), run_startup=False)
+        if case.get("via") == "cli" and receiver_early is None:
+            receiver = _receiver_from_cli(broker, case)
+        else:
+            receiver = receiver_early or Receiver(broker, executor=InlineExecutor(), validate_params=case.get("parse", True), run_startup=False)
         loop.run_coro(receiver.callback(bm.message))
         obs = []
         from taskiq.kicker import AsyncKicker
@@ -205,8 +266,9 @@ def run(case: Dict[str, Any]) -> Dict[str, Any]:
                 others_ok = others_ok and got.get(name) == "DEFAULT"
         return {"e": "call", "sig": [{"reg": p["reg"], "an": p["an"], "def": bool(p["def"]), "dep": bool(p["dep"])} for p in sig],
                 "call": [{"p": c["p"], "how": c["how"], "vc": c["vc"]} for c in case["call"]], "parse": bool(case.get("parse", True)),
-                "obs": obs, "ran": bool(got), "rt_ok": bool(rt_ok), "others_ok": bool(others_ok)}
+                "obs": obs, "ran": bool(got) and "__shadow_ran__" not in got, "rt_ok": bool(rt_ok), "others_ok": bool(others_ok)}
     finally:
+        AsyncBroker.global_task_registry.pop("fn", None)
         try:
             loop.shutdown()
         except Exception:  # noqa: BLE001
